@@ -1,6 +1,259 @@
-import Plonk.Model.Codec
+/-
+  C16 — serialization round trips preserve keys, proofs and parameters; proof encoding is canonical.
+
+  All statements are about the model's own codecs (`Plonk/Model/{Bls,Verifier,Codec}.lean`), the ones
+  the driver compares with the Rust decoders.  `AllBytes bs` says that `bs` is a list of bytes
+  (entries `< 256`); it is needed only by the canonicity statements (the model lists are `List Nat`).
+
+  Status.
+  * Full: byte/value round trips (LE and BE), canonical scalars, compressed `G1` (round trip and
+    canonicity; `P` is proved prime in `Proofs/PrimeP.lean`, so no primality hypothesis is left),
+    proofs (round trip on the 1008-byte prefix, canonicity), verifier keys (round trip; canonicity on
+    the 728 bytes that are read — the trailing 240 bytes of the 968-byte buffer are ignored by the
+    decoder, so canonicity cannot say anything about them), evaluation vectors, raw (Montgomery)
+    `G1` points and raw commit keys, public parameters.
+  * With an explicit hypothesis: opening keys, verifiers and public parameters contain two `G2`
+    points; their own compressed round trip (`G2.fromCompressed? p.toCompressed = some p`) goes through
+    the `F_p²` square root of the external crate, which is modelled but not verified here, so it is a
+    hypothesis (`hh`, `hxh` / `hok`).  It is discharged by kernel evaluation for the generator in the
+    examples.
+  * Forced hypotheses (findings, all benign): `verifier_roundtrip` needs the total length
+    `label + 968 + 240 + 8·#indices < 2^64` (otherwise the decoder's checked additions fail with
+    `notEnoughBytes`), indices / size / constraints `< 2^64` (8-byte fields), and the existence of the
+    domain of `vk.n` (`Verifier::new` fails otherwise).  `commitkey_raw_roundtrip` needs a non-empty key
+    (the decoder rejects `len = 0`) whose encoding fits `usize`.  `pp_roundtrip` needs a non-empty commit
+    key (the decoder rejects inputs of at most 240 bytes).
+  * `pkey_roundtrip` / `prover_roundtrip` are full round trips for well-formed keys (`PKeyRaw.WF`, the
+    same predicate that `C17.pkey_wf` shows for every accepted key; it includes that the polynomials
+    are stored trimmed — no trailing zero coefficient: the decoder trims, so an untrimmed polynomial
+    cannot come back), plus the conditions checked by `Prover::new`; both are forced.  Nothing is
+    `_partial`.
+-/
+import Plonk.Proofs.CodecExamples
+import Plonk.Proofs.CodecAllBytes
+
+-- sequential elaboration (thread creation fails under the memory cap of the shared machine)
+set_option Elab.async false
+
 namespace Plonk.Props.C16
-open Plonk
+open Plonk Plonk.CodecEx
+
 /-- the Montgomery radix used by the raw commit-key codec -/
 theorem mont_r_inv : pmul MONT_R MONT_RINV = 1 := by decide +kernel
+
+/-- the two field moduli the codecs rely on are prime (Pratt certificates) -/
+theorem moduli_prime : Nat.Prime P ∧ Nat.Prime R ∧ Nat.Prime RJ := ⟨P_prime, R_prime, RJ_prime⟩
+
+/-! ### bytes -/
+
+/-- value → bytes → value, little and big endian -/
+theorem bytes_value_roundtrip {v len : Nat} (h : v < 256 ^ len) :
+    bytesToNatLE (natToBytesLE v len) = v ∧ bytesToNatBE (natToBytesBE v len) = v ∧
+    (natToBytesLE v len).length = len ∧ (natToBytesBE v len).length = len :=
+  ⟨bytesToNatLE_natToBytesLE h, bytesToNatBE_natToBytesBE h, natToBytesLE_length _ _, natToBytesBE_length _ _⟩
+
+example : (300 : Nat) < 256 ^ 2 := by norm_num
+
+/-- bytes → value → bytes, little and big endian -/
+theorem bytes_bytes_roundtrip {bs : List Nat} (h : AllBytes bs) :
+    natToBytesLE (bytesToNatLE bs) bs.length = bs ∧ natToBytesBE (bytesToNatBE bs) bs.length = bs :=
+  ⟨natToBytesLE_bytesToNatLE h, natToBytesBE_bytesToNatBE h⟩
+
+example : AllBytes [1, 0, 255] := by intro b hb; simp at hb; rcases hb with rfl | rfl | rfl <;> norm_num
+
+/-- scalar round trip -/
+theorem scalar_roundtrip {x : Nat} (h : x < R) : scalarFromBytes? (scalarBytesLE x) = some x :=
+  scalarFromBytes_scalarBytesLE h
+
+example : R - 1 < R := by decide +kernel
+
+/-- scalar decoding is canonical -/
+theorem scalar_canonical {bs : List Nat} {x : Nat} (hb : AllBytes bs) (h : scalarFromBytes? bs = some x) :
+    scalarBytesLE x = bs ∧ x < R :=
+  scalarFromBytes_canonical hb h
+
+example : AllBytes (scalarBytesLE 5) ∧ scalarFromBytes? (scalarBytesLE 5) = some 5 :=
+  ⟨scalarBytesLE_allBytes 5, scalarFromBytes_scalarBytesLE (by decide +kernel)⟩
+
+/-! ### compressed `G1` -/
+
+/-- compressed round trip, without and with the subgroup check (`G1.Valid`: the identity, or reduced
+    coordinates on the curve).  No exclusion of `y = 0` is needed: the decoder's choice between `y` and
+    `−y` is right in every case. -/
+theorem g1_compressed_roundtrip {p : G1} (hp : p.Valid) :
+    G1.fromCompressedUnchecked? p.toCompressed = some p ∧
+    (p.torsionFree = true → G1.fromCompressed? p.toCompressed = some p) :=
+  ⟨G1.fromCompressedUnchecked_toCompressed hp, fun ht => G1.fromCompressed_toCompressed hp ht⟩
+
+example : G1.gen.Valid ∧ G1.gen.torsionFree = true := gen_ok
+
+/-- compressed decoding is canonical (flag bits, `x < p`, the identity exactly `c0 00 … 00`; it uses that
+    the curve has no point with `y = 0`, i.e. `−4` is not a cube in `F_p`, which is proved) -/
+theorem g1_compressed_canonical {bs : List Nat} {p : G1} (hb : AllBytes bs)
+    (h : G1.fromCompressedUnchecked? bs = some p) : p.toCompressed = bs :=
+  (G1.fromCompressedUnchecked_spec h).1 hb
+
+example : AllBytes G1.gen.toCompressed ∧ G1.fromCompressedUnchecked? G1.gen.toCompressed = some G1.gen :=
+  ⟨G1.toCompressed_allBytes gen_valid, G1.fromCompressedUnchecked_toCompressed gen_valid⟩
+
+/-! ### proofs -/
+
+/-- proof round trip; longer inputs: the 1008-byte prefix is read -/
+theorem proof_roundtrip {p : ProofM} (hp : p.WF) (extra : List Nat) :
+    ProofM.fromBytes? p.toBytes = some p ∧ ProofM.fromBytes? (p.toBytes ++ extra) = some p ∧
+    p.toBytes.length = 1008 :=
+  ⟨ProofM.fromBytes_toBytes hp, ProofM.fromBytes_toBytes_append hp extra, ProofM.toBytes_length p⟩
+
+example : exProof.WF := exProof_wf
+
+/-- **proof encoding is canonical**: any byte string the proof decoder accepts re-encodes to itself
+    (to its 1008-byte prefix when it is longer) -/
+theorem proof_canonical {bs : List Nat} {p : ProofM} (hb : AllBytes bs) (h : ProofM.fromBytes? bs = some p) :
+    p.toBytes = bs.take 1008 :=
+  ProofM.fromBytes_canonical hb h
+
+theorem proof_canonical_exact {bs : List Nat} {p : ProofM} (hb : AllBytes bs) (hl : bs.length = 1008)
+    (h : ProofM.fromBytes? bs = some p) : p.toBytes = bs := by
+  rw [ProofM.fromBytes_canonical hb h, ← hl, List.take_length]
+
+example : AllBytes exProof.toBytes ∧ ProofM.fromBytes? exProof.toBytes = some exProof ∧
+    exProof.toBytes.length = 1008 :=
+  ⟨ProofM.toBytes_allBytes exProof_wf, ProofM.fromBytes_toBytes exProof_wf, ProofM.toBytes_length _⟩
+
+/-! ### verifier keys -/
+
+/-- verifier-key round trip (968-byte buffer) -/
+theorem vkey_roundtrip {k : VKey} (hk : k.WF) : VKey.fromBytes? k.toBytes = some k ∧ k.toBytes.length = 968 :=
+  ⟨VKey.fromBytes_toBytes hk, VKey.toBytes_length k⟩
+
+example : (exVKey 4).WF := exVKey_wf 4 (by norm_num)
+
+/-- verifier-key decoding is canonical on the bytes it reads: 8 + 15·48 = 728; the 240 trailing bytes of
+    the buffer are ignored by the decoder (`k.toBytes = k.body ++ 240 zero bytes`) -/
+theorem vkey_canonical {bs : List Nat} {k : VKey} (hb : AllBytes bs) (h : VKey.fromBytes? bs = some k) :
+    k.body = bs.take 728 ∧ k.toBytes = bs.take 728 ++ List.replicate 240 0 := by
+  have := VKey.fromBytes_canonical hb h
+  exact ⟨this, by rw [VKey.toBytes_eq, this]⟩
+
+example : AllBytes (exVKey 4).toBytes ∧ VKey.fromBytes? (exVKey 4).toBytes = some (exVKey 4) :=
+  ⟨VKey.toBytes_allBytes (exVKey_wf 4 (by norm_num)), VKey.fromBytes_toBytes (exVKey_wf 4 (by norm_num))⟩
+
+/-! ### opening keys, verifiers, public parameters -/
+
+/-- opening-key round trip (`G2` round trips as hypotheses, see the header) -/
+theorem openingkey_roundtrip {k : OpeningKeyM} (hg : k.g.Valid ∧ k.g.torsionFree = true)
+    (hh : G2.fromCompressed? k.h.toCompressed = some k.h)
+    (hxh : G2.fromCompressed? k.xh.toCompressed = some k.xh)
+    (hne : k.g ≠ .inf ∧ k.h ≠ .inf ∧ k.xh ≠ .inf) :
+    OpeningKeyM.fromBytes? k.toBytes = some k ∧ k.toBytes.length = 240 :=
+  ⟨OpeningKeyM.fromBytes_toBytes hg hh hxh hne, OpeningKeyM.toBytes_length k⟩
+
+example : OpeningKeyM.fromBytes? exOK.toBytes = some exOK := exOK_roundtrip
+
+/-- verifier round trip -/
+theorem verifier_roundtrip {v : VerifierM} (hvk : v.vk.WF)
+    (hok : OpeningKeyM.fromBytes? v.ok.toBytes = some v.ok)
+    (hd : (Domain.new? v.vk.n).isSome = true) (hpi : ∀ i ∈ v.piIndexes, i < 2 ^ 64)
+    (hs : v.size < 2 ^ 64) (hc : v.constraints < 2 ^ 64)
+    (hfit : v.label.length + 968 + 240 + 8 * v.piIndexes.length < 2 ^ 64) :
+    VerifierM.fromBytes v.toBytes = .ok v :=
+  VerifierM.fromBytes_toBytes hvk hok hd hpi hs hc hfit
+
+example : VerifierM.fromBytes exVerifier.toBytes = .ok exVerifier := exVerifier_roundtrip
+
+/-- public-parameter round trip -/
+theorem pp_roundtrip {ok : OpeningKeyM} {ck : List G1} (hok : OpeningKeyM.fromBytes? ok.toBytes = some ok)
+    (hne : ck ≠ []) (h : ∀ p ∈ ck, p.Valid ∧ p.torsionFree = true) :
+    ppFromBytes (ppToBytes ok ck) = .ok (ok, ck) :=
+  ppFromBytes_ppToBytes hok hne h
+
+example : ppFromBytes (ppToBytes exOK [G1.gen, .inf]) = .ok (exOK, [G1.gen, .inf]) :=
+  ppFromBytes_ppToBytes exOK_roundtrip (by simp) (by
+    intro p hp; simp at hp; rcases hp with rfl | rfl
+    · exact gen_ok
+    · exact inf_ok)
+
+/-! ### prover side -/
+
+/-- evaluation-vector round trip (`Domain.new? d.size = some d` holds for every domain built by
+    `Domain.new?`, see `Domain.new?_idem`) -/
+theorem evals_roundtrip {d : Domain} {ev : List Nat} (hd : Domain.new? d.size = some d)
+    (hl : ev.length = d.size) (hev : ∀ e ∈ ev, e < R) :
+    evalsFromBytes (evalsToBytes d ev) = .ok (d, ev) :=
+  evalsFromBytes_evalsToBytes hd hl hev
+
+example : ∃ (d : Domain) (ev : List Nat), Domain.new? d.size = some d ∧ ev.length = d.size ∧
+    (∀ e ∈ ev, e < R) ∧ d.size = 4 := exEvals
+
+/-- evaluation-vector decoding is canonical -/
+theorem evals_canonical {bs : List Nat} {d : Domain} {ev : List Nat} (hb : AllBytes bs)
+    (h : evalsFromBytes bs = .ok (d, ev)) : evalsToBytes d ev = bs :=
+  (evalsFromBytes_wf h).2.2.2.2.2.2.2.2 hb
+
+example : ∃ (d : Domain) (ev : List Nat), AllBytes (evalsToBytes d ev) ∧
+    evalsFromBytes (evalsToBytes d ev) = .ok (d, ev) := by
+  obtain ⟨d, ev, h1, h2, h3, _⟩ := exEvals
+  exact ⟨d, ev, evalsToBytes_allBytes d ev, evalsFromBytes_evalsToBytes h1 h2 h3⟩
+
+/-- raw (Montgomery) point round trip -/
+theorem raw_roundtrip {p : G1} (hp : p.Valid) (ht : p.torsionFree = true) :
+    G1.fromRawChecked p.toRaw = some p ∧ p.toRaw.length = 97 :=
+  ⟨G1.fromRawChecked_toRaw hp ht, G1.toRaw_length p⟩
+
+example : G1.fromRawChecked G1.gen.toRaw = some G1.gen := G1.fromRawChecked_toRaw gen_valid gen_torsionFree
+
+/-- raw point decoding is canonical on 97-byte chunks (flag byte, both Montgomery limbs, canonical
+    identity) -/
+theorem raw_canonical {bs : List Nat} {p : G1} (hb : AllBytes bs) (hl : bs.length = 97)
+    (h : G1.fromRawChecked bs = some p) : p.toRaw = bs :=
+  G1.fromRawChecked_canonical hb hl h
+
+example : AllBytes G1.gen.toRaw ∧ G1.gen.toRaw.length = 97 ∧ G1.fromRawChecked G1.gen.toRaw = some G1.gen :=
+  ⟨G1.toRaw_allBytes _, G1.toRaw_length _, G1.fromRawChecked_toRaw gen_valid gen_torsionFree⟩
+
+/-- raw commit-key round trip -/
+theorem commitkey_raw_roundtrip {ck : List G1} (hne : ck ≠ []) (hfit : 8 + ck.length * 97 ≤ USIZE_MAX)
+    (h : ∀ p ∈ ck, p.Valid ∧ p.torsionFree = true) :
+    commitKeyFromRaw (commitKeyToRaw ck) = .ok ck :=
+  commitKeyFromRaw_toRaw hne hfit h
+
+example : commitKeyFromRaw (commitKeyToRaw [G1.gen, .inf]) = .ok [G1.gen, .inf] :=
+  commitKeyFromRaw_toRaw (by simp) (by rw [USIZE_MAX_eq]; simp) (by
+    intro p hp; simp at hp; rcases hp with rfl | rfl
+    · exact gen_ok
+    · exact inf_ok)
+
+/-- raw commit-key decoding is canonical -/
+theorem commitkey_raw_canonical {bs : List Nat} {ck : List G1} (hb : AllBytes bs)
+    (h : commitKeyFromRaw bs = .ok ck) : commitKeyToRaw ck = bs :=
+  (commitKeyFromRaw_wf h).2.2.2.2 hb
+
+example : AllBytes (commitKeyToRaw [G1.gen]) ∧ commitKeyFromRaw (commitKeyToRaw [G1.gen]) = .ok [G1.gen] :=
+  ⟨commitKeyToRaw_allBytes _, commitKeyFromRaw_toRaw (by simp) (by rw [USIZE_MAX_eq]; simp) (by
+    intro p hp; simp at hp; subst hp; exact gen_ok)⟩
+
+/-- prover-key round trip (the zero padding of the encoder's buffer is ignored by the decoder) -/
+theorem pkey_roundtrip {k : PKeyRaw} {d8 : Domain} (wf : k.WF d8) : PKeyRaw.fromBytes k.toBytes = .ok k :=
+  PKeyRaw.fromBytes_toBytes wf
+
+example : exPKey.WF exD8 := exPKey_wf
+
+/-- whatever the prover-key decoder accepts re-encodes to bytes that decode to the same key -/
+theorem pkey_reencode {bs : List Nat} {k : PKeyRaw} (h : PKeyRaw.fromBytes bs = .ok k) :
+    PKeyRaw.fromBytes k.toBytes = .ok k :=
+  PKeyRaw.fromBytes_reencode h
+
+example : PKeyRaw.fromBytes exPKey.toBytes = .ok exPKey := exPKey_roundtrip
+
+/-- prover round trip -/
+theorem prover_roundtrip {p : ProverM} {d8 : Domain} (wf : p.key.WF d8)
+    (hck : p.ck ≠ [] ∧ ∀ q ∈ p.ck, q.Valid ∧ q.torsionFree = true) (hvk : p.vk.WF)
+    (hc : p.constraints ≤ 2 ^ 63) (hsz : nextPow2' p.constraints = p.size) (hn : p.key.n = p.size)
+    (hd : (Domain.new? p.constraints).isSome = true) (hvz : ∀ x ∈ p.key.vh, x ≠ 0)
+    (hfit : p.label.length + p.key.toBytes.length + (8 + 97 * p.ck.length) + 968 < 2 ^ 64) :
+    ProverM.fromBytes p.toBytes = .ok p :=
+  ProverM.fromBytes_toBytes wf hck hvk hc hsz hn hd hvz hfit
+
+example : ProverM.fromBytes exProver.toBytes = .ok exProver := exProver_roundtrip
+
 end Plonk.Props.C16
